@@ -704,7 +704,8 @@ where
         blobs.sort_by_key(Blob::id);
 
         let active_blob = if with_active {
-            if blobs.is_empty() && new_corrupted_blob_count > 0 {
+            if blobs.is_empty() {
+                // No readable blob is left (all quarantined now or earlier, or ignored): start a fresh one
                 let next = self.inner.next_blob_name()?;
                 Some(Blob::open_new(next, self.inner.iodriver.clone(), self.inner.config.blob()).await?)
             } else {
